@@ -7,12 +7,13 @@ VARIABLES l
 vars == <<l>>
 Init == l = 1
 IsEv(e) == l <= Len(Trace) /\ Trace[l].ev = e /\ l' = l + 1
-Next == IsEv("reset") \/ IsEv("import") \/ (l = Len(Trace) + 1 /\ UNCHANGED l)
+Next == IsEv("crash") \/ IsEv("reset") \/ IsEv("import") \/ (l = Len(Trace) + 1 /\ UNCHANGED l)
 TraceSpec == Init /\ [][Next]_vars
 Has == l > 1
 Ev == Trace[l - 1]
 IsI == Has /\ Ev.ev = "import"
-Cond_NoPanic == IsI => Ev.e # "panic"
+NoCrash == ~(l > 1 /\ Trace[l - 1].ev = "crash")   \* the code under test took the whole harness process down (driver: mark_crash)
+Cond_NoPanic == NoCrash /\ (IsI => Ev.e # "panic")
 Cond_NoHang == IsI => Ev.e # "hang"    \* the importer returns (a tree with a fifo is *rejected*, not waited on)
 Cond_Harness_Walk == IsI => Ev.walkOK
 Cond_C18_Reject == IsI => ((Ev.e # "nil") <=> Ev.hasOther) /\ (Ev.e # "nil" => ~Ev.link)
